@@ -8,6 +8,7 @@ type Result<T> = std::result::Result<T, Error>;
 const FN_RESERVED: &str = "FN RESERVED FOR FUNCTIONS";
 const ARRAY_NOT_ALLOWED: &str = "ARRAY NOT ALLOWED";
 const EXPECTED_VARIABLE: &str = "EXPECTED VARIABLE";
+const MAX_EXPRESSION_DEPTH: usize = 64;
 
 pub fn parse(line_number: LineNumber, tokens: &[Token]) -> Result<Vec<Statement>> {
     match BasicParser::parse(tokens) {
@@ -21,6 +22,7 @@ struct BasicParser<'a> {
     peeked: Option<&'a Token>,
     rem: bool,
     col: Column,
+    depth: usize,
 }
 
 impl<'a> BasicParser<'a> {
@@ -30,6 +32,7 @@ impl<'a> BasicParser<'a> {
             peeked: None,
             rem: false,
             col: 0..0,
+            depth: 0,
         };
         match parse.peek() {
             Some(Token::Literal(Literal::Integer(_)))
@@ -368,6 +371,12 @@ impl Expression {
             var_map: &HashMap<token::Ident, Variable>,
             precedence: usize,
         ) -> Result<Expression> {
+            // The parser, the code generator and drop all recurse over nested
+            // expressions; keep the nesting far below what a small stack holds.
+            parse.depth += 1;
+            if parse.depth > MAX_EXPRESSION_DEPTH {
+                return Err(error!(OutOfMemory, ..&parse.col; "EXPRESSION TOO COMPLEX"));
+            }
             let mut lhs = match parse.next() {
                 Some(Token::LParen) => {
                     let expr = descend(parse, var_map, 0)?;
@@ -429,6 +438,7 @@ impl Expression {
                 rhs = descend(parse, var_map, op_prec)?;
                 lhs = Expression::binary_op(column, op, lhs, rhs)?;
             }
+            parse.depth -= 1;
             Ok(lhs)
         }
         descend(parse, var_map, 0)
